@@ -67,6 +67,9 @@ func snapshotGlobals(gs []gsym) []uint64 {
 // (lazily built templates and tables), which the schedule exploration under the race detector covers.
 func lazyGuarded(name string) bool {
 	n := strings.ToLower(name)
+	if strings.Contains(name, "..typeAssert.") || strings.Contains(name, "..interfaceSwitch.") {
+		return true // caches of the Go runtime for type switches/assertions, updated atomically by the runtime itself
+	}
 	return strings.Contains(n, "once") || strings.Contains(n, "template") || strings.HasSuffix(n, "..inittask") || strings.Contains(n, "globalprofiler")
 }
 
